@@ -45,7 +45,7 @@ def run(ck, facts, tier):
     # partial_cmp must be the only overridden comparison (lt/le/gt/ge derive from it)
     for r in facts.all_fns():
         ti = r.get("trait_item") or ""
-        if ti.startswith("std::cmp::PartialOrd::") and ti != "std::cmp::PartialOrd::partial_cmp" and any(n in (r.get("self_ty") or "") for n in NUMS):
+        if ti.startswith("std::cmp::PartialOrd::") and ti != "std::cmp::PartialOrd::partial_cmp" and any(n in (r.get("impl") or r.get("self_ty") or "") for n in NUMS + ("::Number",)):
             ck.fail(r1, short(r["fn"]), "PartialOrd::%s overridden: comparison operators no longer follow partial_cmp" % ti.rsplit("::", 1)[-1], "%s:%d" % (r["file"], r["line"]))
 
     # ---- R19.1b comparisons on the Number container, per kind case
